@@ -157,7 +157,7 @@ BYTE_ORDER_ARG = {
     # callee: (index of the string argument, index of the byte-order argument)
     '_dbus_marshal_set_uint32': (0, 3), '_dbus_marshal_read_uint32': (0, 2), '_dbus_marshal_read_basic': (0, 4),
     '_dbus_marshal_set_basic': (0, 5), '_dbus_type_writer_init_values_only': (4, 1), '_dbus_type_reader_init': (4, 1),
-    '_dbus_type_writer_init': (4, 1), '_dbus_marshal_byteswap': (5, 3),
+    '_dbus_type_writer_init': (4, 1), '_dbus_marshal_byteswap': (4, 3),
 }
 
 
@@ -180,7 +180,26 @@ def c02_5(ck, prog):
             key = '%s:%s@%d' % (fn.name, c['callee'], n)
             ok = is_call(bo, '_dbus_header_get_byte_order') or (is_ref(bo) and bo['name'] in ('byte_order', 'old_byte_order', 'new_byte_order'))
             if c['callee'] == '_dbus_marshal_byteswap':
-                ok = True
+                # (old order, new order): the old one is the order the bytes are in now -- the header's --,
+                # the new one is something else (the compiler's order, or the caller's target order)
+                oldo, newo = c['args'][2], c['args'][3]
+
+                def from_header(e, fn=fn):
+                    if is_call(e, '_dbus_header_get_byte_order'):
+                        return True
+                    if is_ref(e) and e.get('kind') == 'local':
+                        ds = [rhs for b2, i2, ev in fn.events() for lhs, how, rhs in written_lvalues(ev)
+                              if is_ref(lhs) and lhs.get('id') == e.get('id') and rhs is not None]
+                        return bool(ds) and all(is_call(d, '_dbus_header_get_byte_order') for d in ds)
+                    return False
+                ok = from_header(oldo) and not from_header(newo)
+                if not ok:
+                    r.violation('%s:%s' % (fn.name, c['callee']), fn.name, fn.file, c['line'],
+                                '_dbus_marshal_byteswap is told the bytes are in order %s and are to become %s; the '
+                                'order they are in is the header\'s own byte order, which must be the OLD order: '
+                                'lengths of strings and arrays are decoded with it before they are swapped' % (
+                                    estr(oldo), estr(newo)))
+                    continue
             if ok:
                 r.ok('%s:%s' % (fn.name, c['callee']), {'byte_order': estr(bo)})
             else:
